@@ -114,6 +114,13 @@ package main
 //       measure that is too small makes the translation answer None where Go goes on; a lemma
 //       `model = Some ...` about the function therefore also proves the measure sufficient, and
 //       where a lemma states None it says which of the two it is.
+//   Spellings of one loop are brought to ONE form first (gotrans_norm.go): an index walk that uses its index only as
+//   xs[i] is the range loop over xs; a walk from the END of xs (`for i := range xs {.. xs[len(xs)-i-1] ..}`,
+//   `for i := len(xs)-1; i >= 0; i--`, `for d := len(xs); d > 0; d-- {.. xs[d-1] ..}`) is the list loop over
+//   `rev xs` -- with a key j counting from the end, and the counter defined from j in the body, when the counter is
+//   used as a number too.
+//   A method `func (s T) top() *E { return &s[len(s)-1] }` is a name for that element: x.top().f is x[len(x)-1].f
+//   (only directly under a field selection; gotrans_norm.go placeCall).
 //
 // STATE
 //   Go's effects on data the caller can see become results.  A function's changed state is
